@@ -21,9 +21,26 @@ SRC_HDRS := $(wildcard src/*.hpp src/*.inc)
 
 PLAIN_BINS := $(foreach k,$(KINDS),$(B)/seqmc_$(k)_plain)
 SAN_BINS := $(foreach k,$(KINDS),$(B)/seqmc_$(k)_san)
+E2A_BINS := $(foreach k,$(KINDS),$(B)/schedmc_$(k)_asan)
+E2T_BINS := $(foreach k,$(KINDS),$(B)/schedmc_$(k)_tsan)
+E2ASAN := -O1 -g -fsanitize=address -fno-omit-frame-pointer
+E2TSAN := -O1 -g -fsanitize=thread -fno-inline -fno-omit-frame-pointer -rdynamic
 
-.PHONY: all setup plain san clean
-all: plain san
+.PHONY: all setup plain san e2 clean
+all: plain san e2
+e2: $(E2A_BINS) $(E2T_BINS)
+
+# the scheduler is compiled without any instrumentation (see src/vsched.c)
+$(B)/sched.o: src/vsched.c src/vsched.h
+	@mkdir -p $(B)
+	gcc -O2 -g -fPIC -Wall -c src/vsched.c -o $@
+
+$(B)/schedmc_%_asan: src/schedmc.cpp $(B)/sched.o $(SRC_HDRS) $(REPO_HDRS)
+	$(CXX) $(COMMON) $(E2ASAN) -DVF_CK=$(IDX_$*) src/schedmc.cpp $(B)/sched.o -ldl -o $@
+
+$(B)/schedmc_%_tsan: src/schedmc.cpp $(B)/sched.o $(SRC_HDRS) $(REPO_HDRS)
+	$(CXX) $(COMMON) $(E2TSAN) -DVF_CK=$(IDX_$*) src/schedmc.cpp $(B)/sched.o -ldl -o $@
+
 setup: all
 plain: $(PLAIN_BINS)
 san: $(SAN_BINS)
